@@ -78,32 +78,115 @@ theorem good_newGroup (q : Quirks) (start : Id) : Good (newGroup q start) := by
 
 theorem idSorted_nodup {l : List Id} (h : IdSorted l) : l.Nodup := h.imp (fun hlt => idLt_ne hlt)
 
-/-- deliveries under `>` keep the state good: what is delivered lies beyond the cursor, hence is fresh -/
-theorem good_deliver {g : Group} (h : Good g) {stream : List Id} (hs : IdSorted stream) (c : Name)
-    (count : Option Nat) : Good (addPending g c (rangeAfter stream g.lastDelivered count)) := by
+theorem mem_pelInsert_sub {e x : PEntry} {l : List PEntry} (h : x ∈ pelInsert e l) : x = e ∨ x ∈ l := by
+  induction l with
+  | nil => simpa [pelInsert] using h
+  | cons y t ih =>
+    simp only [pelInsert] at h
+    split at h
+    · rcases List.mem_cons.mp h with h | h
+      · exact Or.inl h
+      · exact Or.inr h
+    · split at h
+      · rcases List.mem_cons.mp h with h | h
+        · exact Or.inl h
+        · exact Or.inr (List.mem_cons_of_mem _ h)
+      · rcases List.mem_cons.mp h with h | h
+        · exact Or.inr (h ▸ List.mem_cons_self)
+        · rcases ih h with h | h
+          · exact Or.inl h
+          · exact Or.inr (List.mem_cons_of_mem _ h)
+
+theorem deliverOneFixed_ids (c : Name) (s : Group × Nat) (id : Id) :
+    ∀ i ∈ (deliverOneFixed c s id).1.byId.map (·.id), i ∈ s.1.byId.map (·.id) ∨ i = id := by
+  intro i hi
+  unfold deliverOneFixed at hi
+  cases hf : pelFind id s.1.byId with
+  | some e0 =>
+    rw [hf] at hi; simp only at hi
+    rw [claimOne_ids] at hi; exact Or.inl hi
+  | none =>
+    rw [hf] at hi; simp only at hi
+    obtain ⟨x, hx, hxe⟩ := List.mem_map.mp hi
+    have hx' : x ∈ pelInsert ⟨id, c, 1⟩ s.1.byId := hx
+    rcases mem_pelInsert_sub hx' with h' | h'
+    · right; rw [← hxe, h']
+    · exact Or.inl (List.mem_map.mpr ⟨x, h', hxe⟩)
+
+theorem foldl_deliverOneFixed_ids {c : Name} (ids : List Id) : ∀ (s : Group × Nat),
+    ∀ i ∈ (ids.foldl (deliverOneFixed c) s).1.byId.map (·.id), i ∈ s.1.byId.map (·.id) ∨ i ∈ ids := by
+  induction ids with
+  | nil => intro s i hi; exact Or.inl hi
+  | cons id ids ih =>
+    intro s i hi
+    simp only [List.foldl_cons] at hi
+    rcases ih _ i hi with h | h
+    · rcases deliverOneFixed_ids c s id i h with h' | h'
+      · exact Or.inl h'
+      · exact Or.inr (h' ▸ List.mem_cons_self)
+    · exact Or.inr (List.mem_cons_of_mem _ h)
+
+theorem addPendingFixed_ids (g : Group) (c : Name) (ids : List Id) :
+    ∀ e ∈ (addPendingFixed g c ids).byId, e.id ∈ g.byId.map (·.id) ∨ e.id ∈ ids := by
+  intro e he
+  have hb : (addPendingFixed g c ids).byId = (ids.foldl (deliverOneFixed c) (createConsumer g c, 0)).1.byId := by
+    unfold addPendingFixed
+    simp only
+    cases ids.getLast? with
+    | none => rfl
+    | some l => simp only; split <;> rfl
+  rw [hb] at he
+  exact foldl_deliverOneFixed_ids ids (createConsumer g c, 0) e.id (List.mem_map.mpr ⟨e, he, rfl⟩)
+
+/-- deliveries under `>` keep the state good: what is delivered lies beyond the cursor, hence is fresh
+    (shared part: a result that agrees, moves the cursor as `add_pending` does and holds only old or delivered ids) -/
+theorem good_of_delivery {g r : Group} (h : Good g) {stream : List Id} (hs : IdSorted stream) (count : Option Nat)
+    (ha : Agree r)
+    (hl : r.lastDelivered = match (rangeAfter stream g.lastDelivered count).getLast? with
+      | some l => if idLt g.lastDelivered l then l else g.lastDelivered
+      | none => g.lastDelivered)
+    (hm : ∀ e ∈ r.byId, e.id ∈ g.byId.map (·.id) ∨ e.id ∈ rangeAfter stream g.lastDelivered count) : Good r := by
   have hes : ∀ x ∈ rangeAfter stream g.lastDelivered count, idLt g.lastDelivered x = true :=
     fun x hx => (mem_rangeAfter hx).2
   have hsorted := sorted_rangeAfter hs g.lastDelivered count
-  have hfresh : ∀ id ∈ rangeAfter stream g.lastDelivered count, ∀ e ∈ g.byId, e.id ≠ id := by
-    intro id hid e he e0
-    have := idLt_of_lt_of_le (hes id hid) (e0 ▸ h.behind e he)
-    rw [idLt_irrefl] at this; cases this
-  refine ⟨agree_addPending h.agree c (idSorted_nodup hsorted) hfresh, ?_⟩
+  have hold : ∀ i ∈ g.byId.map (·.id), idLe i g.lastDelivered = true := by
+    intro i hi; obtain ⟨e0, he0, rfl⟩ := List.mem_map.mp hi; exact h.behind e0 he0
+  refine ⟨ha, ?_⟩
   intro e he
-  rw [addPending_last]
-  cases hl : (rangeAfter stream g.lastDelivered count).getLast? with
+  rw [hl]
+  cases hlast : (rangeAfter stream g.lastDelivered count).getLast? with
   | none =>
-    rw [List.getLast?_eq_none_iff] at hl
+    rw [List.getLast?_eq_none_iff] at hlast
     simp only
-    rcases addPending_mem h.agree.sorted c _ e he with h' | h'
-    · exact h.behind e h'
-    · rw [hl] at h'; cases h'
+    rcases hm e he with h' | h'
+    · exact hold _ h'
+    · rw [hlast] at h'; cases h'
   | some m =>
-    have hm := hes m (List.mem_of_getLast? hl)
-    simp only [hm, if_true]
+    have hm' := hes m (List.mem_of_getLast? hlast)
+    simp only [hm', if_true]
+    rcases hm e he with h' | h'
+    · exact idLe_of_lt (idLt_of_le_of_lt (hold _ h') hm')
+    · exact hsorted.le_getLast hlast _ h'
+
+theorem good_deliver (q : Quirks) {g : Group} (h : Good g) {stream : List Id} (hs : IdSorted stream) (c : Name)
+    (count : Option Nat) : Good (addPendingQ q g c (rangeAfter stream g.lastDelivered count)) := by
+  unfold addPendingQ
+  split
+  · exact good_of_delivery h hs count (agree_addPendingFixed h.agree c _) (addPendingFixed_last g c _)
+      (addPendingFixed_ids g c _)
+  · have hes : ∀ x ∈ rangeAfter stream g.lastDelivered count, idLt g.lastDelivered x = true :=
+      fun x hx => (mem_rangeAfter hx).2
+    have hfresh : ∀ id ∈ rangeAfter stream g.lastDelivered count, ∀ e ∈ g.byId, e.id ≠ id := by
+      intro id hid e he e0
+      have := idLt_of_lt_of_le (hes id hid) (e0 ▸ h.behind e he)
+      rw [idLt_irrefl] at this; cases this
+    refine good_of_delivery h hs count
+      (agree_addPending h.agree c (idSorted_nodup (sorted_rangeAfter hs g.lastDelivered count)) hfresh)
+      (addPending_last g c _) ?_
+    intro e he
     rcases addPending_mem h.agree.sorted c _ e he with h' | h'
-    · exact idLe_of_lt (idLt_of_le_of_lt (h.behind e h') hm)
-    · exact hsorted.le_getLast hl _ h'
+    · exact Or.inl (List.mem_map.mpr ⟨e, h', rfl⟩)
+    · exact Or.inr h'
 
 /-- operations of one group on which the invariant is preserved (same exclusions as for exactly-once) -/
 def GOp.plainFor (q : Quirks) : GOp → Bool
@@ -146,7 +229,7 @@ theorem good_gstep (q : Quirks) {stream : List Id} (hs : IdSorted stream) {g : G
     | none =>
       simp only [gstep, readGroup]
       split
-      · exact good_deliver h hs c count
+      · exact good_deliver q h hs c count
       · split
         · -- repaired NOACK: only the cursor moves, forwards
           cases hl : (rangeAfter stream g.lastDelivered count).getLast? with
@@ -160,6 +243,56 @@ theorem good_gstep (q : Quirks) {stream : List Id} (hs : IdSorted stream) {g : G
               exact idLe_of_lt (idLt_of_le_of_lt (h.behind e he) hlt)
             · exact h
         · exact h
+
+/-- With the repaired `add_pending` the agreement of the representations survives EVERY operation of a group —
+    SETID backwards and explicit-id re-reads included — from every agreeing state. -/
+theorem agree_gstep_fixed (q : Quirks) (hq : q.redeliverFix = true) (stream : List Id) {g : Group} (h : Agree g)
+    (op : GOp) : Agree (gstep q stream g op).1 := by
+  have hdel : ∀ c ids, Agree (addPendingQ q g c ids) := by
+    intro c ids; unfold addPendingQ; rw [if_pos hq]; exact agree_addPendingFixed h c ids
+  cases op with
+  | setid id => exact agree_setLast h id
+  | createc c => exact agree_createConsumer h c
+  | delc c => exact agree_deleteConsumer h c
+  | ack ids => exact agree_acknowledge h ids
+  | claim c elig ids => exact agree_claim h c elig ids
+  | autoclaim c elig s n => simp only [gstep, autoClaim]; exact agree_claim h c elig _
+  | pending => exact h
+  | prange s e n c => exact h
+  | read c frm count noack =>
+    cases frm with
+    | some a =>
+      simp only [gstep, readGroup]
+      split
+      · exact h
+      · split
+        · exact hdel _ _
+        · exact h
+    | none =>
+      simp only [gstep, readGroup]
+      split
+      · exact hdel _ _
+      · split
+        · cases (rangeAfter stream g.lastDelivered count).getLast? with
+          | none => exact h
+          | some m =>
+            simp only
+            split
+            · exact agree_setLast h m
+            · exact h
+        · exact h
+
+theorem agree_run_fixed (q : Quirks) (hq : q.redeliverFix = true) (ops : List HOp) : ∀ {σ : Code.Sys}, Agree σ.grp →
+    Agree (Code.run q σ ops).grp := by
+  induction ops with
+  | nil => intro σ h; exact h
+  | cons op ops ih =>
+    intro σ h
+    refine ih ?_
+    cases op with
+    | add id => simp only [Code.hstep]; split <;> exact h
+    | del ids => exact h
+    | g op => exact agree_gstep_fixed q hq σ.stream h op
 
 /-- the stream stays strictly sorted and below its last id along any history -/
 structure StreamOk (stream : List Id) (lastId : Id) : Prop where
